@@ -316,6 +316,25 @@ TEXTUAL = [
     ("C13", "active-set-solves-transposed-roles", "tensorly/solvers/nnls.py", "            passive_solution = tl.solve(\n                UtU[passive_set, :][:, passive_set], Utm[passive_set]\n            )\n            indice_list = []\n            for i in range(tl.shape(support_vec)[0]):\n                if passive_set[i]:\n                    indice_list.append(i)\n                    support_vec = tl.index_update(\n                        support_vec,\n                        tl.index[int(i)],\n                        passive_solution[len(indice_list) - 1],\n                    )\n                else:\n                    support_vec = tl.index_update(support_vec, tl.index[int(i)], 0)\n        # Start from zeros", "            passive_solution = tl.dot(\n                UtU[passive_set, :][:, passive_set], Utm[passive_set]\n            )\n            indice_list = []\n            for i in range(tl.shape(support_vec)[0]):\n                if passive_set[i]:\n                    indice_list.append(i)\n                    support_vec = tl.index_update(\n                        support_vec,\n                        tl.index[int(i)],\n                        passive_solution[len(indice_list) - 1],\n                    )\n                else:\n                    support_vec = tl.index_update(support_vec, tl.index[int(i)], 0)\n        # Start from zeros"),
     ("C13", "admm-split-without-rho", "tensorly/solvers/admm.py", "            tl.transpose(UtM + rho * (x + dual_var)),", "            tl.transpose(UtM + (x + dual_var)),"),
     ("C13", "admm-unconstrained-returns-rhs", "tensorly/solvers/admm.py", "            x = tl.transpose(tl.solve(tl.transpose(UtU), tl.transpose(UtM)))\n            return x, x_split, dual_var", "            x = tl.transpose(tl.transpose(UtM))\n            return x, x_split, dual_var"),
+    ("C12", "soft-threshold-squared-threshold", "tensorly/tenalg/proximal.py", "    return tl.sign(tensor) * tl.clip(tl.abs(tensor) - threshold, a_min=0)", "    return tl.sign(tensor) * tl.clip(tl.abs(tensor) - threshold**2, a_min=0)"),
+    ("C12", "soft-threshold-times-tensor", "tensorly/tenalg/proximal.py", "    return tl.sign(tensor) * tl.clip(tl.abs(tensor) - threshold, a_min=0)", "    return tensor * tl.clip(tl.abs(tensor) - threshold, a_min=0)"),
+    ("C12", "l2-prox-shrink-not-normalised", "tensorly/tenalg/proximal.py", "    return tensor - (tensor * regularizer / bigger_value)", "    return tensor - (tensor * regularizer)"),
+    ("C12", "l2-square-prox-data-in-denominator", "tensorly/tenalg/proximal.py", "    return tensor / (1 + 2 * regularizer)", "    return tensor / (1 + 2 * regularizer * tl.norm(tensor))"),
+    ("C12", "simplex-radius-squared", "tensorly/tenalg/proximal.py", "    cumsum_min_param_by_k = (tl.cumsum(tensor_sort, axis=0) - parameter) / tl.cumsum(", "    cumsum_min_param_by_k = (tl.cumsum(tensor_sort, axis=0) - parameter**2) / tl.cumsum("),
+    ("C12", "simplex-shift-not-averaged", "tensorly/tenalg/proximal.py", "        return tl.clip(tensor - difference, a_min=0)\n    else:", "        return tl.clip(tensor - difference * tensor, a_min=0)\n    else:"),
+    ("C12", "normalized-sparsity-divides-by-squared-norm", "tensorly/tenalg/proximal.py", "    return tensor_hard / tl.norm(tensor_hard)", "    return tensor_hard / tl.norm(tensor_hard) ** 2"),
+    ("C12", "svd-thresholding-rescales-by-spectrum", "tensorly/tenalg/proximal.py", "    return tl.dot(U, tl.reshape(soft_thresholding(s, threshold), (-1, 1)) * V)", "    return tl.dot(U, tl.reshape(soft_thresholding(s, threshold) * s, (-1, 1)) * V)"),
+    ("C12", "procrustes-keeps-singular-values", "tensorly/tenalg/proximal.py", "    U, _, V = tl.truncated_svd(matrix, n_eigenvecs=min(matrix.shape))\n    return tl.dot(U, V)", "    U, S, V = tl.truncated_svd(matrix, n_eigenvecs=min(matrix.shape))\n    return tl.dot(U * S, V)"),
+    ("C12", "monotone-running-mean-not-divided", "tensorly/tenalg/proximal.py", "                    (cum_sum[i:, j] - cum_sum[i - 1, j])\n                    / tl.tensor(tl.arange(row - i) + 1, **tl.context(tensor)),", "                    (cum_sum[i:, j] - cum_sum[i - 1, j]) * cum_sum[i - 1, j],"),
+    ("C20", "congruence-second-set-not-normalised", "tensorly/metrics/factors.py", "        mat2 = mat2 / T.norm(mat2, axis=0)\n", ""),
+    ("C20", "congruence-normalised-by-squared-norm", "tensorly/metrics/factors.py", "        mat1 = mat1 / T.norm(mat1, axis=0)\n", "        mat1 = mat1 / T.norm(mat1, axis=0) ** 2\n"),
+    ("C20", "correlation-index-without-normalisation", "tensorly/metrics/similarity.py", "    X_1 = [x1 / cn1 for x1, cn1 in zip(X_1, col_norm_1)]\n", ""),
+    ("C20", "correlation-index-crossed-norms", "tensorly/metrics/similarity.py", "    X_2 = [x2 / cn2 for x2, cn2 in zip(X_2, col_norm_2)]", "    X_2 = [x2 / cn1 for x2, cn1 in zip(X_2, col_norm_1)]"),
+    ("C20", "r2-denominator-not-squared", "tensorly/metrics/regression.py", "    return 1 - T.norm(X_predicted - X_original) ** 2.0 / T.norm(X_original) ** 2.0", "    return 1 - T.norm(X_predicted - X_original) ** 2.0 / T.norm(X_original)"),
+    ("C20", "rmse-without-root", "tensorly/metrics/regression.py", "    return T.sqrt(MSE(y_true, y_pred, axis=axis))", "    return MSE(y_true, y_pred, axis=axis)"),
+    ("C20", "mse-absolute-error", "tensorly/metrics/regression.py", "    return T.mean((y_true - y_pred) ** 2, axis=axis)", "    return T.mean(T.abs(y_true - y_pred), axis=axis)"),
+    ("C20", "reflective-correlation-without-root", "tensorly/metrics/regression.py", "    return T.sum(y_true * y_pred, axis=axis) / T.sqrt(\n        T.sum(y_true**2, axis=axis) * T.sum(y_pred**2, axis=axis)\n    )", "    return T.sum(y_true * y_pred, axis=axis) / (\n        T.sum(y_true**2, axis=axis) * T.sum(y_pred**2, axis=axis)\n    )"),
+    ("C20", "leverage-scores-not-squared", "tensorly/metrics/leverage_scores.py", "tl.sum(U[:, :num_rank] ** 2, axis=1)", "tl.sum(U[:, :num_rank] * S[0], axis=1)"),
     ("C03", "cp-ctor-skips-validation", "tensorly/cp_tensor.py", "        shape, rank = _validate_cp_tensor(cp_tensor)\n        weights, factors = cp_tensor\n", "        weights, factors = cp_tensor\n        shape, rank = tuple(f.shape[0] for f in factors), factors[0].shape[1]\n"),
     ("C03", "tt-vec-of-other-family", "tensorly/tt_tensor.py", "    return tl.tensor_to_vec(tt_to_tensor(factors))", "    return tl.tensor_to_vec(tt_to_tensor(factors[::-1]))"),
     ("C03", "tucker-unfolded-wrong-mode", "tensorly/tucker_tensor.py", "        mode,\n    )", "        mode + 1,\n    )"),
@@ -417,6 +436,11 @@ TEXTUAL_TWINS = [
     ("C07", "tr-als-normal-eq-named-transpose", "tensorly/decomposition/_tr_als.py", "                rhs_mat = tl.matmul(design_mat_tr, tensor_unf)", "                rhs_mat = tl.dot(design_mat_tr, tensor_unf)"),
     ("C13", "hals-update-as-increment", "tensorly/solvers/nnls.py", "                newV = tl.clip(num / den, a_min=epsilon)", "                step = (num - den * V[k, :]) / den\n                newV = tl.clip(V[k, :] + step, a_min=epsilon)"),
     ("C13", "fista-gradient-reordered", "tensorly/solvers/nnls.py", "                -UtM + tl.dot(UtU, x_update) + sparsity_coef + 2 * ridge_coef * x_update\n", "                tl.dot(UtU, x_update) - UtM + 2 * ridge_coef * x_update + sparsity_coef\n"),
+    ("C12", "soft-threshold-via-maximum", "tensorly/tenalg/proximal.py", "    return tl.sign(tensor) * tl.clip(tl.abs(tensor) - threshold, a_min=0)", "    shrunk = tl.abs(tensor) - threshold\n    return tl.sign(tensor) * tl.where(shrunk < 0, 0.0, shrunk)"),
+    ("C12", "l2-prox-guarded-division", "tensorly/tenalg/proximal.py", "    return tensor - (tensor * regularizer / bigger_value)", "    return tensor - (tensor * regularizer / (bigger_value + 1e-12))"),
+    ("C12", "normalized-sparsity-guarded-norm", "tensorly/tenalg/proximal.py", "    return tensor_hard / tl.norm(tensor_hard)", "    return tensor_hard / (tl.norm(tensor_hard) + tl.eps(tensor_hard.dtype))"),
+    ("C20", "congruence-normalise-via-local", "tensorly/metrics/factors.py", "        mat1 = mat1 / T.norm(mat1, axis=0)\n", "        norms1 = T.norm(mat1, axis=0)\n        mat1 = mat1 / norms1\n"),
+    ("C20", "r2-via-ratio", "tensorly/metrics/regression.py", "    return 1 - T.norm(X_predicted - X_original) ** 2.0 / T.norm(X_original) ** 2.0", "    return 1 - (T.norm(X_predicted - X_original) / T.norm(X_original)) ** 2.0"),
     ("C01", "partial-fold-del-by-position", "tensorly/base.py", "    mode_dim = transposed_shape.pop(skip_begin + mode)", "    mode_dim = transposed_shape.pop(skip_begin + mode)\n    _n_axes = len(transposed_shape)"),
 ]
 
